@@ -31,7 +31,7 @@ def plan(tier, seed):
 
 def required(tier):
     return {"spectrum-equals-counting": 20, "total-equals-usable-snps": 20, "chunks-partition": 10, "chunk-spectra-sum": 10,
-            "bootstrap-is-sum-of-chunks": 10, "subsample-exact-size": 8, "stat-S": 15, "stat-pi": 15, "stat-Watterson": 15,
+            "bootstrap-is-sum-of-chunks": 10, "subsample-exact-size": 8, "subsample-bootstrap-sizes": 4, "stat-S": 15, "stat-pi": 15, "stat-Watterson": 15,
             "stat-TajimaD": 15, "stat-Fst": 10, "stat-theta_L": 15, "pi-projection-invariant": 15, "legacy-format": 5}
 
 
@@ -349,6 +349,27 @@ def run_vcf(spec, rec, dadi):
                 (dup if key in seen else seen).add(key)
             rec.check("subsample-keeps-right-snps", (set(dds) - dup) == (expk - dup), site="Misc.make_data_dict_vcf", tags=tags,
                       observed=sorted((set(dds) ^ expk) - dup)[:5])
+        # bootstraps over subsampled individuals: the requested numbers are looked up by population name (the dictionary may list
+        # the populations in any order), every SNP is counted at exactly 2*subsample[pop] chromosomes, so each bootstrap has those
+        # sample sizes and whole-number entries (halves where folding shares an ambiguous class)
+        if ok and syn.npop >= 2 and ci % 2 == 0:
+            sub_rev = {p: sub[p] for p in reversed(syn.pops)}
+            csz = int(rng.choice([50, 500, 10 ** 7]))
+            okb, boots = rec.noraise("bootstraps-returns", lambda: Misc.bootstraps_subsample_vcf(vcf, pop, sub_rev, 2, csz, list(syn.pops), filter=use_filter,
+                                                                                                 mask_corners=False, polarized=False),
+                                     site="Misc.bootstraps_subsample_vcf", tags=tags)
+            if okb:
+                want_shape = tuple(2 * sub[p] + 1 for p in syn.pops)
+                for bs in boots:
+                    d = np.where(np.asarray(np.ma.getmaskarray(bs)), 0.0, np.asarray(bs.data))
+                    good = tuple(bs.shape) == want_shape and bool(np.all(np.abs(2 * d - np.round(2 * d)) < 1e-9)) and d.sum() <= 2 * len(syn.records) * max(1, len(syn.records))
+                    rec.check("subsample-bootstrap-sizes", good, site="Misc.bootstraps_subsample_vcf",
+                              tags=dict(tags, unequal=len(set(sub.values())) > 1), observed={"shape": list(bs.shape), "want": list(want_shape)})
+                if csz == 10 ** 7 and len({r[0] for r in syn.records}) == 1 and not dup:
+                    # one chunk: the bootstrap is the whole data set, total = number of kept SNPs
+                    for bs in boots:
+                        d = np.where(np.asarray(np.ma.getmaskarray(bs)), 0.0, np.asarray(bs.data))
+                        rec.close("subsample-bootstrap-total", abs(d.sum() - len(expk)) / max(1, len(expk)), 1e-9, site="Misc.bootstraps_subsample_vcf", tags=tags)
         for pth in (vcf, pop):
             try:
                 os.remove(pth)
